@@ -39,7 +39,7 @@ func init() {
 	hx.Register("C01", Run)
 }
 
-var tornOffsets = []int{0, 1, 31, 32, 33, 63, 64, 65, 1 << 20}
+var tornOffsets = []int{0, 1, 31, 32, 33, 65, 1 << 20}
 
 func Run(c *hx.Ctx) {
 	c.CoqModule("Corr.C01")
@@ -82,6 +82,8 @@ func Run(c *hx.Ctx) {
 	// directory and node-hash table are shared Coq definitions in the header of cases.v
 	var built []*builtChain
 	var cws []*coqChain
+	var defs []string
+	tab = &interner{idx: map[[32]byte]int{}}
 	for _, j := range jobs {
 		bc, err := buildChain(c, j.name, j.spec)
 		if err != nil {
@@ -93,9 +95,19 @@ func Run(c *hx.Ctx) {
 		}
 		defer os.RemoveAll(bc.dir)
 		cw := newCoqChain(c, j.name, bc)
-		c.CoqHeader(cw.definitions(c))
+		defs = append(defs, cw.definitions(c))
+		// every hash the uncrashed run shows is interned as well
+		for h := range bc.dumps {
+			cw.dobs(bc.dumps[h])
+			lobs(bc.obs[h])
+		}
 		built = append(built, bc)
 		cws = append(cws, cw)
+	}
+	tab.frozen = true
+	c.CoqHeader(tab.definitions())
+	for _, d := range defs {
+		c.CoqHeader(d)
 	}
 	for i, j := range jobs {
 		if built[i] != nil {
@@ -270,8 +282,10 @@ func runCrash(c *hx.Ctx, bc *builtChain, cw *coqChain, h int, p crashPoint) {
 				[]int64{final.BlockCur, final.EventCur, final.StateCur}, []int64{ref.BlockCur, ref.EventCur, ref.StateCur})
 		}
 	}
-	c.Sample(map[string]interface{}{"crash": in.Crash, "txs_in_block": len(bc.blocks[h].Transactions), "reopened_height": o.Height,
+	if p.Torn < 0 || p.Torn == 33 {
+		c.Sample(map[string]interface{}{"crash": in.Crash, "txs_in_block": len(bc.blocks[h].Transactions), "reopened_height": o.Height,
 		"state_root": o.StateRoot, "next_answers": []string{after[0].Got, after[1].Got}})
+	}
 	cw.emit(c, in, h, p, crashed, reopened, after, final)
 }
 
@@ -293,12 +307,65 @@ type coqChain struct {
 
 func cq(h common.Uint256) string { return cb(h[:]) }
 
-// cb prints a byte string as (hb "hex") (decoded by Corr.C01.hb; far cheaper to parse than a list of numerals).
-func cb(b []byte) string {
-	if len(b) == 0 {
-		return "[]"
+// Interned 32-byte strings: hashes occur many times in a case file and literals are what costs
+// time in coqc, so every hash is written once in the header (htab) and referred to as (hh i).
+type interner struct {
+	idx    map[[32]byte]int
+	list   [][32]byte
+	frozen bool
+}
+
+var tab = &interner{idx: map[[32]byte]int{}}
+
+func (t *interner) ref(b []byte) (string, bool) {
+	var k [32]byte
+	copy(k[:], b)
+	i, ok := t.idx[k]
+	if !ok {
+		if t.frozen {
+			return "", false
+		}
+		i = len(t.list)
+		t.idx[k] = i
+		t.list = append(t.list, k)
 	}
-	return "(hb \"" + hx.Hex(b) + "\"%string)"
+	return fmt.Sprint(i), true
+}
+
+func (t *interner) definitions() string {
+	var items []string
+	for _, h := range t.list {
+		items = append(items, hx.CoqBytes(h[:]))
+	}
+	return "Definition htab : list bytes := " + hx.CoqList(items) + ".\n" +
+		"Definition hh (i : N) : bytes := List.nth (N.to_nat i) htab [].\n" +
+		"Definition hcat (l : list N) : bytes := List.concat (List.map hh l).\n"
+}
+
+// cb prints a byte string: 32-byte aligned parts through the hash table, the rest as a literal.
+func cb(b []byte) string {
+	if len(b) < 32 {
+		return hx.CoqBytes(b)
+	}
+	var refs []string
+	n := 0
+	for n+32 <= len(b) {
+		r, ok := tab.ref(b[n : n+32])
+		if !ok {
+			break
+		}
+		refs = append(refs, r)
+		n += 32
+	}
+	switch {
+	case n == 0:
+		return hx.CoqBytes(b)
+	case n == len(b) && len(refs) == 1:
+		return "(hh " + refs[0] + ")"
+	case n == len(b):
+		return "(hcat " + hx.CoqList(refs) + ")"
+	}
+	return "(hcat " + hx.CoqList(refs) + " ++ " + hx.CoqBytes(b[n:]) + ")"
 }
 
 // recTree mirrors which node hashes the compact merkle tree asks for; the values come from the
